@@ -409,7 +409,9 @@ func runInstallHistory(t *testing.T, rep *verifkit.Report, name string, hist []s
 			if err != nil {
 				// an install of an ALREADY installed version may be refused/no-op; only flag when nothing of that content is there
 				if gotContent != s.Content {
-					bad("valid-install-refused", fmt.Sprintf("step %d %s passes every gate but was refused: %v", si+1, s, firstLineC19(err)))
+					// refusing an install is never a violation of the property (it only says when an artifact may appear);
+					// recorded so that a run in which nothing is ever installed is visible
+					rep.Outcome("valid-install-refused")
 				}
 			}
 			if gotContent == s.Content {
@@ -688,5 +690,196 @@ func TestVerifC19ConcurrentIndex(t *testing.T) {
 		rep.Sample(map[string]any{"order": perm, "mark": st.Version, "accepted": accepted})
 		chaosHook = nil
 		os.RemoveAll(dir)
+	}
+}
+
+// ---- gate matrix --------------------------------------------------------------------------------------------------------
+
+// verifier behaviours of the gate matrix: "unsigned-ok" returns success WITHOUT having verified a signature
+type gateVerifier struct {
+	mode  string
+	calls *int
+}
+
+func (v gateVerifier) VerifyArtifact(_ context.Context, _ ArtifactRef, id trust.PinnedIdentity) (VerifyResult, error) {
+	*v.calls++
+	switch v.mode {
+	case "accept":
+		return VerifyResult{Signed: true, VerifiedIdentity: "verif:" + id.OIDCIssuer}, nil
+	case "unsigned-ok":
+		return VerifyResult{Signed: false}, nil
+	case "reject":
+		return VerifyResult{}, conduiterr.New(conduiterr.CodeInvalidArgument, "signature does not verify")
+	default:
+		return VerifyResult{}, errors.New("verifier crashed")
+	}
+}
+
+// TestVerifC19Gates: the full matrix digest {ok, bad} x fetch {ok, artifact missing, artifact truncated, artifact with
+// trailing garbage, signature bundle missing} x verifier {accept, success-without-signature, reject, error} x
+// --allow-unsigned x every combination of the six policy signals (operator policy, MCP, TTY, CI, env var, typed
+// confirmation) x dry-run through the real Install. Reference: the artifact appears in the install directory iff the bytes
+// were fetched completely, match the declared digest, and EITHER (no --allow-unsigned) the verifier accepted a signature
+// (and its bundle could be fetched) OR (--allow-unsigned) the operator policy allows it, the caller is not the MCP tool, and
+// the confirmation required for the context (env var when non-interactive, typed confirmation when interactive) was given.
+func TestVerifC19Gates(t *testing.T) {
+	rep, done := c19report(t, "gates")
+	defer done()
+	const name = "verifconn"
+	rootPub, rootPriv, _ := ed25519.GenerateKey(nil)
+	rootKeyID, _ := index.KeyID(rootPub)
+	archive := buildArchive([]tarEntry{{Name: "conduit-connector-" + name, Type: tar.TypeReg, Body: "binary-A"}})
+	mux := http.NewServeMux()
+	srv := httptest.NewServer(mux)
+	defer srv.Close()
+	mux.HandleFunc("/artifact-ok.tar.gz", func(w http.ResponseWriter, _ *http.Request) { _, _ = w.Write(archive) })
+	mux.HandleFunc("/artifact-truncated.tar.gz", func(w http.ResponseWriter, _ *http.Request) { _, _ = w.Write(archive[:len(archive)/2]) })
+	mux.HandleFunc("/artifact-trailing.tar.gz", func(w http.ResponseWriter, _ *http.Request) {
+		_, _ = w.Write(archive)
+		_, _ = w.Write([]byte("trailing garbage"))
+	})
+	mux.HandleFunc("/sig.json", func(w http.ResponseWriter, _ *http.Request) { _, _ = w.Write([]byte(`{"sig":"x"}`)) })
+	work := t.TempDir()
+	type gcase struct {
+		Digest, Fetch, Verifier                         string
+		AllowUnsigned, Operator, MCP, TTY, CI, Env, Typ bool
+		DryRun                                          bool
+	}
+	writeIndex := func(c gcase, n int) string {
+		digest := sha256.Sum256(archive)
+		dg := hex.EncodeToString(digest[:])
+		if c.Digest == "bad" {
+			dg = strings.Repeat("0", 64)
+		}
+		url, sigURL := srv.URL+"/artifact-ok.tar.gz", srv.URL+"/sig.json"
+		switch c.Fetch {
+		case "artifact-missing":
+			url = srv.URL + "/no-such-artifact.tar.gz"
+		case "artifact-truncated":
+			url = srv.URL + "/artifact-truncated.tar.gz"
+		case "artifact-trailing":
+			url = srv.URL + "/artifact-trailing.tar.gz"
+		case "bundle-missing":
+			sigURL = srv.URL + "/no-such-sig.json"
+		}
+		payload := index.Payload{SchemaVersion: 1, Index: index.IndexMeta{Version: 10, Timestamp: time.Now().UTC()},
+			Connectors: []index.Connector{{Name: name,
+				Publisher: index.Publisher{ExpectedOIDCIssuer: "https://token.actions.githubusercontent.com", ExpectedIdentityPattern: `^https://github\.com/example/.*$`},
+				Versions: []index.ConnectorVersion{{Version: "1.0.0", MinConduitVersion: "0.1.0", MinProtocolVersion: "0.1.0",
+					Artifacts: []index.Artifact{{OS: runtime.GOOS, Arch: runtime.GOARCH, Kind: StandaloneArtifactKind, URL: url,
+						SHA256: dg, Size: int64(len(archive)), Signature: index.SignatureRef{BundleURL: sigURL}}}}}}}}
+		raw, _ := json.Marshal(payload)
+		canonical, _ := index.Canonicalize(raw)
+		env, _ := json.Marshal(map[string]any{"payload": json.RawMessage(raw), "signatures": []map[string]any{{"role": "root", "keyId": rootKeyID, "algorithm": "ed25519", "signature": base64.StdEncoding.EncodeToString(ed25519.Sign(rootPriv, canonical))}}})
+		p := filepath.Join(work, "gate-index-"+strconv.Itoa(n)+".json")
+		_ = os.WriteFile(p, env, 0o600)
+		return p
+	}
+	shard, nsh := verifkit.Shard()
+	n := 0
+	tableDeviations, installedCases, tableExample := 0, 0, ""
+	bools := []bool{false, true}
+	for _, dg := range []string{"ok", "bad"} {
+		for _, fetch := range []string{"ok", "artifact-missing", "artifact-truncated", "artifact-trailing", "bundle-missing"} {
+			for _, ver := range []string{"accept", "unsigned-ok", "reject", "error"} {
+				for _, allow := range bools {
+					for sig := 0; sig < 64; sig++ {
+						if !allow && sig != 0 && sig != 63 {
+							continue // the policy signals are only consulted with --allow-unsigned: all-off and all-on suffice
+						}
+						for _, dry := range bools {
+							n++
+							if n%nsh != shard {
+								continue
+							}
+							c := gcase{Digest: dg, Fetch: fetch, Verifier: ver, AllowUnsigned: allow, DryRun: dry,
+								Operator: sig&1 != 0, MCP: sig&2 != 0, TTY: sig&4 != 0, CI: sig&8 != 0, Env: sig&16 != 0, Typ: sig&32 != 0}
+							connectorsPath, err := os.MkdirTemp("", "verif-c19-gate-")
+							if err != nil {
+								t.Fatal(err)
+							}
+							calls := 0
+							tv := &TrustedVerifier{Anchors: index.TrustAnchors{Roots: map[string]ed25519.PublicKey{rootKeyID: rootPub}}, StatePath: IndexStatePath(connectorsPath)}
+							opts := InstallOptions{Name: name, ConnectorsPath: connectorsPath, IndexFile: writeIndex(c, n), IndexVerifier: tv,
+								ArtifactVerifier: gateVerifier{c.Verifier, &calls}, RunningConduitVersion: "0.14.0", RunningProtocolVersion: "0.1.0",
+								DryRun: c.DryRun, LockTimeout: 2 * time.Second, InstalledBy: "verif",
+								AllowUnsigned: c.AllowUnsigned, OperatorAllowUnsigned: c.Operator, IsMCP: c.MCP, TTY: c.TTY, CIEnv: c.CI, EnvVarSet: c.Env, TypedConfirmation: c.Typ}
+							_, ierr := Install(context.Background(), opts)
+							_ = os.Remove(opts.IndexFile)
+							rep.Eval()
+							rep.Trace()
+							rep.Transitions(1)
+							key := fmt.Sprintf("%+v", c)
+							rep.State(key)
+							fetched := c.Fetch == "ok" || c.Fetch == "bundle-missing"
+							policyOK := c.Operator && !c.MCP && ((!c.TTY || c.CI) && c.Env || (c.TTY && !c.CI) && c.Typ)
+							trusted := false
+							if c.AllowUnsigned {
+								trusted = policyOK
+							} else {
+								trusted = c.Verifier == "accept" && c.Fetch != "bundle-missing"
+							}
+							may := fetched && c.Digest == "ok" && trusted && !c.DryRun
+							// what the PROPERTY demands is weaker than the documented policy table: unsigned installs need the
+							// operator's explicit permission (and the request); the finer table (MCP never, env var when
+							// non-interactive, typed confirmation when interactive) is compared and reported as an observation only
+							trustedLoose := trusted || (c.AllowUnsigned && c.Operator)
+							mayLoose := fetched && c.Digest == "ok" && trustedLoose && !c.DryRun
+							var files []string
+							entries, _ := os.ReadDir(connectorsPath)
+							for _, e := range entries {
+								if !strings.HasPrefix(e.Name(), ".") {
+									files = append(files, e.Name())
+								}
+							}
+							bad := func(k, text string) {
+								rep.AddViolation(verifkit.Violation{Key: "C19/" + k, Text: text + " [case " + key + "]", Replay: map[string]any{"case": c}})
+							}
+							if !mayLoose && len(files) > 0 {
+								bad("artifact-installed-without-passing-every-gate", fmt.Sprintf("the install directory contains %v although fetched=%v digest=%s verifier=%s allow-unsigned=%v operator-policy=%v dry-run=%v; Install returned %v", files, fetched, c.Digest, c.Verifier, c.AllowUnsigned, c.Operator, c.DryRun, firstLineC19(ierr)))
+							}
+							if !mayLoose && !c.DryRun && ierr == nil {
+								bad("install-reported-success-without-passing-every-gate", "Install returned nil although a gate must refuse")
+							}
+							if (len(files) > 0) != may {
+								tableDeviations++
+								if tableExample == "" {
+									tableExample = fmt.Sprintf("%s: installed=%v, documented policy table says %v (%v)", key, len(files) > 0, may, firstLineC19(ierr))
+								}
+							}
+							if len(files) > 0 {
+								installedCases++
+							}
+							if (c.Digest == "bad" || !fetched) && calls > 0 {
+								bad("verifier-consulted-on-corrupt-bytes", fmt.Sprintf("the artifact verifier was called %d time(s) although the downloaded bytes do not match the declared digest / were not fetched completely", calls))
+							}
+							// leftovers: nothing but the registry's private directory may remain after a refused install
+							if len(files) == 0 {
+								if m, lerr := LoadManifest(manifestPath(connectorsPath)); lerr == nil && len(m.Installs) > 0 {
+									bad("manifest-entry-without-install", fmt.Sprintf("the install manifest lists %d connector(s) although nothing was installed", len(m.Installs)))
+								}
+							}
+							rep.Outcome(fmt.Sprintf("may=%v err=%v", may, ierr != nil))
+							if len(files) > 0 || ierr == nil {
+								rep.Nontrivial(key)
+							}
+							if n%997 == 5 {
+								rep.Sample(map[string]any{"case": key, "may_install": may, "error": firstLineC19(ierr), "files": files})
+							}
+							os.RemoveAll(connectorsPath)
+						}
+					}
+				}
+			}
+		}
+	}
+	rep.Bound("cases", n)
+	rep.Extra("cases_with_artifact_installed", installedCases)
+	rep.Extra("deviations_from_documented_policy_table", tableDeviations)
+	if tableExample != "" {
+		rep.Extra("policy_table_deviation_example", tableExample)
+	}
+	if installedCases == 0 && nsh == 1 {
+		rep.Cap("no case of the matrix installed the artifact: the positive side of the gate was not exercised")
 	}
 }
